@@ -200,6 +200,20 @@ class Ctx:
     def ev(self, *e):
         self.log.append(e)
 
+    async def suspend(self, label):
+        """a user awaitable suspends once: it hands a unique token to the event loop and records what the loop
+        sends or throws back (C17: both must pass through the library unchanged)"""
+        if not hasattr(self, "issued"):
+            self.issued, self.replies, self.thrown = [], [], []
+        tok = ("tok", len(self.issued), label)
+        self.issued.append(tok)
+        try:
+            reply = await Tok(tok)
+        except BaseException as e:  # noqa
+            self.thrown.append((tok, e))
+            raise
+        self.replies.append((tok, reply))
+
     def use(self):
         n = self.uses
         self.uses += 1
@@ -239,7 +253,7 @@ class Src:
     async def __anext__(self):
         self.ctx.ev("pull", self.idx)
         if self.suspend:
-            await Tok(("pull", self.idx))
+            await self.ctx.suspend(("pull", self.idx))
         self.ctx.use()
         if self.closed > 0 or self.exh:
             self.ctx.ev("end", self.idx)
@@ -256,7 +270,7 @@ class Src:
         self.ctx.ev("close", self.idx)
         self.closing += 1
         if self.suspend:
-            await Tok(("close", self.idx))
+            await self.ctx.suspend(("close", self.idx))
         self.ctx.use()
         self.closed += 1
 
@@ -318,7 +332,7 @@ def mkfn(ctx, idx, spec, asynchronous=True, suspend=False):
         async def f(*args):
             ctx.ev("call", idx, args)
             if suspend:
-                await Tok(("call", idx))
+                await ctx.suspend(("call", idx))
             ctx.use()
             return apply_fn(spec, list(args))
     else:
@@ -342,7 +356,7 @@ def mkscript(ctx, items, asynchronous=True, suspend=False):
         async def f():
             ctx.ev("call", 0, ())
             if suspend:
-                await Tok(("call", 0))
+                await ctx.suspend(("call", 0))
             return step()
         return f
 
@@ -362,9 +376,10 @@ def drive(coro):
     raise RuntimeError("unexpected suspension")
 
 
-def drive_tokens(coro, cancel_at=None, cancel_exc=None):
+def drive_tokens(coro, cancel_at=None, cancel_exc=None, reply=False):
     """Run a coroutine to completion, resuming every suspension; optionally throw cancel_exc at the
-    cancel_at-th suspension (0-based). Returns (value, tokens)."""
+    cancel_at-th suspension (0-based). With reply=True every token is answered by ("reply", token).
+    Returns (value, tokens)."""
     toks = []
     try:
         t = coro.send(None)
@@ -373,7 +388,7 @@ def drive_tokens(coro, cancel_at=None, cancel_exc=None):
             if cancel_at is not None and len(toks) - 1 == cancel_at:
                 t = coro.throw(cancel_exc)
             else:
-                t = coro.send(None)
+                t = coro.send(("reply", t) if reply else None)
     except StopIteration as e:
         return e.value, toks
 
